@@ -113,7 +113,7 @@ type worker struct {
 	xrd map[string]any
 }
 
-func fnConds(cs []cond) []*fnv1.Condition {
+func fnConds(cs []cond, rec int) []*fnv1.Condition {
 	var out []*fnv1.Condition
 	for _, c := range cs {
 		st := fnv1.Status_STATUS_CONDITION_TRUE
@@ -123,7 +123,7 @@ func fnConds(cs []cond) []*fnv1.Condition {
 		case "Unknown":
 			st = fnv1.Status_STATUS_CONDITION_UNKNOWN
 		}
-		msg := "forged by function"
+		msg := fmt.Sprintf("forged by function (reconcile %d)", rec)
 		fc := &fnv1.Condition{Type: c.Type, Status: st, Reason: forged, Message: &msg}
 		if c.Target == "claim" {
 			t := fnv1.Target_TARGET_COMPOSITE_AND_CLAIM
@@ -205,7 +205,7 @@ func (w *worker) program(step int, req *fnv1.RunFunctionRequest) (*fnv1.RunFunct
 				}
 			}
 		}
-		rsp.Conditions = fnConds(cs)
+		rsp.Conditions = fnConds(cs, rec)
 	}
 	if step == 1 {
 		switch p.XRReady1 {
@@ -237,6 +237,7 @@ func newWorker(c *kit.Ctx, id int) *worker {
 
 func (w *worker) pipeWorld(seed uint64, class string) *sim.World {
 	world := sim.NewWorld(xrk.Scheme(), seed)
+	world.RequireRV = true // an XR status update without a resourceVersion is refused, as by a real API server
 	world.AddAdmission(rejectAs(class))
 	world.MustSeed("user", w.xrd)
 	var names []string
@@ -268,7 +269,7 @@ func checkSystemConditions(c *kit.Ctx, name, mode string, xr map[string]any, may
 		if m == nil {
 			continue
 		}
-		if m["reason"] == forged || m["message"] == "forged by function" {
+		if m["reason"] == forged || strings.HasPrefix(fmt.Sprint(m["message"]), "forged by function") {
 			c.Violate("system-condition-forged:"+fmt.Sprint(m["type"])+":"+mode, name, fmt.Sprintf("system condition carries the function's reason/message: %v", m), wit())
 		}
 	}
@@ -324,6 +325,25 @@ func (w *worker) runPipe(i int, p pipeCase, name string) {
 		checkSystemConditions(c, name, "pipeline", xr, mayBeReady && !fatalNow || (fatalNow && mayBeReady), !invalidNow && !fatalNow, wit)
 		if p.InvalidLater && rec >= 1 {
 			c.Count("reconciles_repeating_a_rejected_update", 1)
+			// an apply refused with something other than 422 fails the reconcile after the pipeline
+			// ran: a custom condition then either shows what the functions asserted in THIS reconcile
+			// or Unknown - never what an earlier reconcile left behind
+			if p.RejectAs == "forbidden" || p.RejectAs == "unavailable" || p.RejectAs == "notserved" {
+				for _, cd := range p.Conds {
+					if cd.Type == "Ready" || cd.Type == "Synced" {
+						continue
+					}
+					got := condOf(xr, cd.Type)
+					if got == nil {
+						c.Count("custom_condition_absent_after_failed_compose_observed_only", 1)
+						continue
+					}
+					c.Count("custom_conditions_checked_after_failed_compose", 1)
+					if got["status"] != "Unknown" && !strings.HasSuffix(fmt.Sprint(got["message"]), fmt.Sprintf("(reconcile %d)", rec)) {
+						c.Violate("stale-custom-condition-after-failed-compose", name, fmt.Sprintf("reconcile %d failed after its pipeline ran (composed resource apply refused: %s); custom condition %s is stored as %v - neither Unknown nor what this reconcile's functions asserted", rec, p.RejectAs, cd.Type, got), wit())
+					}
+				}
+			}
 		}
 		if fatalNow {
 			// custom conditions asserted in reconcile 0 and not re-asserted now must be Unknown
